@@ -718,8 +718,11 @@ class FuncEmitter:
             elif op == 'sitofp':
                 self.emit('%s = (%s)(%s)%s;' % (c, E.ct(dt), sx(st.bits), v.c))
             elif op == 'fptoui':
+                # the only integer conversions with undefined behaviour: the value must fit (explicit obligation instead of --conversion-check)
+                self.emit('__CPROVER_assert(%s > -1.0 && %s < %s, "float to unsigned conversion: value in range");' % (v.c, v.c, float(2 ** dt.bits).hex()))
                 self.emit('%s = (%s)%s;' % (c, E.ct(dt), v.c))
             elif op == 'fptosi':
+                self.emit('__CPROVER_assert(%s > %s && %s < %s, "float to signed conversion: value in range");' % (v.c, float(-(2 ** (dt.bits - 1)) - 1).hex(), v.c, float(2 ** (dt.bits - 1)).hex()))
                 self.emit('%s = (%s)(%s)%s;' % (c, E.ct(dt), sx(dt.bits), v.c))
             return
         if op in ('add', 'sub', 'mul', 'and', 'or', 'xor', 'shl', 'lshr', 'ashr', 'udiv', 'sdiv', 'urem', 'srem'):
@@ -1202,7 +1205,7 @@ def emit_module(mod, out, contracts=None, aliases=None):
     if pending:
         raise Unsupported('cyclic type dependency: ' + ', '.join(n for n, _ in pending))
     for fn, ct in em.undef_fns.items():
-        w('#ifdef LL2C_CPROVER\n%s %s(void);\n#else\nstatic inline %s %s(void) { %s z; memset(&z, 0, sizeof z); return z; }\n#endif\n' % (ct, fn, ct, fn, ct))
+        w('#ifdef LL2C_CPROVER\n%s %s(void) { %s z; return z; }   /* an uninitialised local is a fresh nondeterministic value under CBMC (aggregates included) */\n#else\nstatic inline %s %s(void) { %s z; memset(&z, 0, sizeof z); return z; }\n#endif\n' % (ct, fn, ct, ct, fn, ct))
     for g in gdecl: w(g + '\n')
     for p in protos: w(p + '\n')
     for g in gtext: w(g + '\n')
